@@ -168,6 +168,8 @@ class ValueOps:
             if len(smt.split_top(inner)) == 1:
                 u = inner
         if k == 'str':
+            if assume and 'nestr' in ty and 'str' not in ty:
+                st.assume(mk_not(mk_eq(u, '""')), 'wf')
             return self.mk_str(u)
         if k == 'int':
             return self.mk_int(u)
@@ -361,7 +363,10 @@ class ValueOps:
     def int_to_str(self, t):
         if smt.is_int_lit(t):
             return str_lit(str(smt.int_lit_value(t)))
-        return mk_ite(mk_le('0', t), "(str.from_int %s)" % t, mk_concat(['"-"', "(str.from_int (- %s))" % t]))
+        # str(int) is kept uninterpreted (sound for every function, hence for the real one); the
+        # solvers' str.from_int reasoning made otherwise syntactic proofs unstable
+        self.st.decls.fun('istr', ['Int'], 'String')
+        return "(istr %s)" % t
 
     def to_str(self, sv, node=None):
         """python str(sv) as SV str"""
